@@ -51,6 +51,22 @@ def text_inputs(run):
     for _ in range(300 if run.tier == "quick" else 3000):
         out.append("".join(rng.choice(TOKEN_ALPHABET) for _ in range(rng.randint(4, 30))))
     out += nesting_texts(rng, 60 if run.tier == "quick" else 600)
+    # characters that lexers like to treat specially: byte order mark, other Unicode spaces and line separators, zero-width
+    # characters, lone carriage returns, form feed, vertical tab, NUL, non-characters; at the start and inside files
+    SPECIAL = ["\ufeff", "\u00a0", "\u2028", "\u2029", "\u3000", "\u200b", "\u200d", "\r", "\x0c", "\x0b", "\x00", "\x7f", "\u0085", "\ufffe", "\U0001f600", "\u0301"]
+    for ch in SPECIAL:
+        base_t = rng.choice(texts)
+        out.append(ch + base_t)
+        out.append(base_t + ch)
+        out.append("fn main() { let x = 1;%s let y = 2; () }\n" % ch)
+        out.append("fn main() { let s = \"a%sb\"; () }\n// c%sd\n" % (ch, ch))
+        out.append("fn a() -> int32 { 1 }\n%sfn b() -> int32 { 2 }\n" % ch)
+    for _ in range(80 if run.tier == "quick" else 800):
+        t = rng.choice(texts)
+        for _ in range(rng.randint(1, 3)):
+            i = rng.randint(0, len(t))
+            t = t[:i] + rng.choice(SPECIAL) + t[i:]
+        out.append(t)
     return out, n_exh
 
 
